@@ -13,6 +13,8 @@ Reads are pure *by construction*: `getBytes`, `getMeta`, `contains`, `isDir`, `k
 -/
 import LiquerProofs.Lemmas.StoreSpec
 import LiquerProofs.Lemmas.StoreMem
+import LiquerModel.StoreFile
+import LiquerModel.StoreProxy
 
 namespace Liquer.C07
 open Liquer
@@ -168,4 +170,90 @@ theorem spec_frame_run (fs : FS) (h : List StoreOp) (k' : Key)
     simp only [StoreOps.run] at this
     rw [this, spec_frame fs op k' (hk op List.mem_cons_self)]
 
+/-! non-vacuity of the hypotheses of part (i) -/
+example : FS.tree [] = true ∧ wfOp [] (.store [['a'], ['b']] [1, 2] { user := ['u'] }) = true := by decide
+example : wfHist [] [.store [['a'], ['b']] [1] { user := ['u'] }, .storeMeta [['a'], ['b']] { user := ['v'] },
+    .makedir [['a'], ['c']], .remove [['a'], ['b']], .removedir [['a'], ['c']] false, .removedir [['a']] true] = true := by decide
+example : wfOp (specOps.step [] (.store [['a'], ['b']] [1] { user := ['u'] })) (.remove [['a'], ['b']]) = true := by decide
+example : wfOp (specOps.step [] (.makedir [['a'], ['b']])) (.removedir [['a']] true) = true := by decide
+-- the frame has instances: `e` is unrelated to `a/b`
+example : ¬ ([['e']] <+: (StoreOp.store [['a'], ['b']] [1] { user := [] }).key ∨
+             (StoreOp.store [['a'], ['b']] [1] { user := [] }).key <+: [['e']]) := by decide
+-- ill-formed operations are really excluded: storing below a file
+example : wfOp (specOps.step [] (.store [['a']] [1] { user := [] })) (.store [['a'], ['b']] [1] { user := [] }) = false := by decide
+
+/-! ### (ii) the back-ends agree with the reference store -/
+
+/-- all keys of the history consist of non-empty components (keys are `/`-separated strings without empty parts) -/
+def normalHist (h : List StoreOp) : Prop := ∀ op ∈ h, ∀ c ∈ op.key, c ≠ []
+
+/-- **`MemoryStore` refines the reference store**: after every well-formed history (any length) every key shows the same
+`contains`, `is_dir`, bytes, metadata fields and the same directory listing up to order, and `keys()` lists the same
+keys up to order.  (`ObsEquiv`, `keysEquiv`: `LiquerProofs/Lemmas/StoreMem.lean`.) -/
+theorem mem_refines (h : List StoreOp) (hwf : wfHist [] h = true) (hn : normalHist h) (k : Key) :
+    ObsEquiv (memOps.obs (memOps.run memInit h) k) (specOps.obs (specOps.run [] h) k) ∧
+    keysEquiv (memOps.keys (memOps.run memInit h)) (specOps.keys (specOps.run [] h)) := by
+  have hs := sim_run sim_init FS.tree_nil h hwf
+  have ht := spec_tree_run FS.tree_nil h hwf
+  exact ⟨hs.obsEquiv ht (normal_run normal_nil h hn) k, hs.keysEquiv ht⟩
+
+/-- after every prefix of a well-formed history the next operation of the memory store succeeds -/
+theorem mem_never_fails (h : List StoreOp) (op : StoreOp) (hwf : wfHist [] (h ++ [op]) = true) :
+    ∃ s', memOps.apply (memOps.run memInit h) op = .ok s' := by
+  have hsplit : ∀ (fs : FS) (h : List StoreOp), wfHist fs (h ++ [op]) = true →
+      wfHist fs h = true ∧ wfOp (specOps.run fs h) op = true := by
+    intro fs h
+    induction h generalizing fs with
+    | nil => intro hw; simpa [wfHist, StoreOps.run] using hw
+    | cons o rest ih =>
+      intro hw
+      simp only [List.cons_append, wfHist, Bool.and_eq_true] at hw
+      obtain ⟨h1, h2⟩ := ih _ hw.2
+      exact ⟨by simp [wfHist, hw.1, h1], by simpa [StoreOps.run] using h2⟩
+  obtain ⟨h1, h2⟩ := hsplit [] h hwf
+  exact mem_step_ok (sim_run sim_init FS.tree_nil h h1) (spec_tree_run FS.tree_nil h h1) op h2
+
+/-- the abstraction function: the memory state reached by a well-formed history *is* (binding by binding) the
+specification state reached by the same history -/
+theorem mem_abs (h : List StoreOp) (hwf : wfHist [] h = true) (k : Key) :
+    (absMem (memOps.run memInit h)).get k = (specOps.run [] h).get k :=
+  absMem_get (sim_run sim_init FS.tree_nil h hwf) k
+
+-- non-vacuity: a normal well-formed history with nested keys, overwrite, metadata update and recursive removal
+example : wfHist [] [.store [['a'], ['b'], ['d']] [1] { user := ['u'] }, .store [['a'], ['b'], ['d']] [] { user := ['v'] },
+    .storeMeta [['a'], ['b'], ['d']] { user := ['w'] }, .removedir [['a'], ['b']] true] = true := by decide
+example : normalHist [.store [['a'], ['b'], ['d']] [1] { user := ['u'] }, .removedir [['a'], ['b']] true] := by
+  intro op hop c hc
+  simp only [List.mem_cons, List.not_mem_nil, or_false] at hop
+  rcases hop with rfl | rfl <;> simp [StoreOp.key] at hc <;> rcases hc with rfl | rfl | rfl <;> simp
+
+/-- `ProxyStore` / `IndexerStore` (on the observed fields): the identity -/
+theorem proxy_refines {σ : Type} (S : StoreOps σ) : proxyOps S = S := by
+  cases S; rfl
+
+/-- observations agree up to the order of listings and the kind of failure of `get_bytes`
+(`FileStore.get_bytes` of a directory raises `IsADirectoryError`, the reference store `KeyNotFound`) -/
+structure ObsEquivF (a b : KeyObs) : Prop where
+  contains : a.contains = b.contains
+  isDir : a.isDir = b.isDir
+  bytes : (∃ d, a.bytes = .ok d ∧ b.bytes = .ok d) ∨ (∃ e e', a.bytes = .error e ∧ b.bytes = .error e')
+  metadata : a.metadata = b.metadata
+  listdir : listingEquiv a.listdir b.listdir
+
+/-- keys a `FileStore` history may use: components that are non-empty, not `.`, `..` or the reserved folder name -/
+def plainComponent (c : Str) : Prop := c ≠ [] ∧ c ≠ dot ∧ c ≠ dotdot ∧ c ≠ metaDirName
+
+/-- full statement of the refinement for the `FileStore` model — **not proved**; the `fileOps` model is tied to
+`specOps` (and to `FileStore`) by the correspondence streams of `harness/props/C07.py` only -/
+def file_refines_statement : Prop :=
+  ∀ (root : Path) (h : List StoreOp), wfHist [] h = true → (∀ op ∈ h, ∀ c ∈ op.key, plainComponent c) →
+    ∀ k : Key, (∀ c ∈ k, plainComponent c) →
+      ObsEquivF ((fileOps root).obs ((fileOps root).run (fileInit root) h) k) (specOps.obs (specOps.run [] h) k) ∧
+      (∃ ks, (fileOps root).keys ((fileOps root).run (fileInit root) h) = .ok ks ∧
+             ks.Perm ((specOps.run [] h).map (·.1)))
+
 end Liquer.C07
+
+-- OBLIGATIONS: Liquer.C07.spec_store_read Liquer.C07.spec_store_present Liquer.C07.spec_listed_once Liquer.C07.spec_store_once Liquer.C07.spec_remove Liquer.C07.spec_removedir Liquer.C07.spec_frame Liquer.C07.spec_frame_run Liquer.C07.spec_tree_step Liquer.C07.spec_tree Liquer.C07.spec_reachable_tree
+-- OBLIGATIONS: Liquer.C07.mem_refines Liquer.C07.mem_never_fails Liquer.C07.mem_abs Liquer.C07.proxy_refines
+-- STATEMENT-ONLY: Liquer.C07.file_refines_statement
